@@ -304,6 +304,42 @@ def loop_exit_rule(ctx, rule, table):
                   detail="%d found: %s" % (len(found), found))
 
 
+def filled_by_loop(body, vec_local, roles=None):
+    """`let mut v = Vec::new()/with_capacity(..); for x in ITER { v.push(ELEM) }` - the loop spelling of
+    `ITER.map(|x| ELEM).collect()`: returns (shape of ITER's source, shape of ELEM with the loop element written
+    p1, block of the push) when `vec_local` starts as a fresh vector and is filled by exactly one push that every
+    iteration of one loop passes; None otherwise."""
+    ds = [sh for sh, _, _ in q.def_shapes(body, vec_local, roles)]
+    if len(ds) != 1 or not (ds[0] in ("Vec::new()", "Default::default()") or ds[0].startswith("Vec::with_capacity(")):
+        return None
+    pushes = [(bi, t) for bi, t in q.calls_to(body, "Vec::<T, A>::push") if q.root_local(q.arg_expr(body, t, 0)) == vec_local]
+    if len(pushes) != 1:
+        return None
+    pb, pt = pushes[0]
+    heads = [(bi, t) for bi, t in q.calls_to(body, "Iterator::next") if body.dominates(bi, pb)]
+    if not heads:
+        return None
+    hb, ht = heads[-1] if len(heads) == 1 else max(heads, key=lambda h: len(body.dominators_of(h[0])))
+    it_local = q.root_local(q.arg_expr(body, ht, 0))
+    if it_local is None:
+        return None
+    srcs = [sh for sh, _, _ in q.def_shapes(body, it_local, roles)]
+    if len(srcs) != 1:
+        return None
+    sw = body.blocks[hb]["term"].get("t")
+    tt = body.blocks[sw]["term"] if sw is not None else {}
+    ent = [tb for v, tb in tt.get("arms", []) if v == 1] if tt.get("k") == "switch" else []
+    if not ent or not loop_passes(body, ent[0], hb, [pb]):
+        return None
+    elem = q.shape(q.arg_expr(body, pt, 1), roles)
+    nxt = "try(%s)" % q.shape(body.expr_of_call(ht), roles)
+    src = srcs[0]
+    for pre in ("IntoIterator::into_iter(", "slice::iter("):
+        if src.startswith(pre) and src.endswith(")"):
+            src = src[len(pre):-1]
+    return src, elem.replace(nxt, "p1"), pb
+
+
 def for_each_form(body, iter_patterns, roles=None):
     """`ITER.for_each(closure)` in place of `for x in ITER { .. }`: returns (block, closure body,
     [shapes of the crate-local calls the closure makes, capture markers removed]) for a for_each
